@@ -4,3 +4,4 @@ import ForsysModel.Driver.C19
 import ForsysModel.Driver.C17
 import ForsysModel.Driver.C18
 import ForsysModel.Driver.C14
+import ForsysModel.Driver.Time
